@@ -2,7 +2,7 @@
 // Argument classes used here: 'i' INTEGER scalar (8 bytes in a GP register), 'd' SSE scalar (double), 'f' float,
 // 'l' long double (X87 => MEMORY, 16 bytes, 16-aligned), aggregates by their eightbyte classes:
 // 'p' {INTEGER} 8 bytes, 'q' {SSE} 8 bytes, 'r' {INTEGER,INTEGER}, 's' {SSE,SSE}, 't' {INTEGER,SSE}, 'u' {SSE,INTEGER},
-// 'm' MEMORY aggregate of 24 bytes.
+// 'm' MEMORY aggregate of 24 bytes, 'n' MEMORY aggregate of 20 bytes (five ints).
 #ifndef PSABI_CALL_H
 #define PSABI_CALL_H
 typedef struct { int where; int r0, r1; int mem_off; int size; } SpecArg;   /* where: 0 registers, 1 memory; r: reg numbers (gp 0..5 = rdi,rsi,rdx,rcx,r8,r9 ; 100+k = xmm k ; -1 none) */
@@ -20,6 +20,7 @@ static inline void spec_abi_arg(SpecAbi *st, char k, SpecArg *a) {
   case 't': ngp = 1; nfp = 1; c0 = 'I'; c1 = 'S'; size = 16; break;
   case 'u': ngp = 1; nfp = 1; c0 = 'S'; c1 = 'I'; size = 16; break;
   case 'm': size = 24; break;
+  case 'n': size = 20; break;                                    /* MEMORY aggregate whose size is not a multiple of 8 */
   }
   a->size = size; a->r0 = a->r1 = -1; a->mem_off = -1;
   // an argument goes to registers only if ALL its eightbytes get one
